@@ -173,6 +173,6 @@ def run(ctx, F):
             push.q: "own worker-local queue or a queue not yet shared",
             "util::heap::blockpageresource::BlockPageResource::alloc_pages_slow_sync": "fills a fresh array with newly acquired blocks before publishing it via add_global_array"}, min_sites=2):
         r = show(strip(c.fn.flow.arg_tree(c, 0)))
-        okr = ("worker_local_freed_blocks" in r and "current_worker_ordinal" in r) or bool(re.fullmatch(r"(phi\()?BlockQueue::new\(\)( \| BlockQueue::new\(\))*\)?", r))
+        okr = bool(re.fullmatch(r"<Vec as Index>::index\(arg1\.worker_local_freed_blocks, worker::current_worker_ordinal\(\)\)", r)) or bool(re.fullmatch(r"(phi\()?BlockQueue::new\(\)( \| BlockQueue::new\(\))*\)?", r))
         ctx.judge(okr, "C19.unsafe-push", "push_relaxed receiver at line %s" % c.line, expected="worker_local_freed_blocks[current_worker_ordinal()] or a fresh BlockQueue::new()", found=r[:160],
                   where=where(c.fn, c.line), key="C19.unsafe-push|recv")
